@@ -70,7 +70,7 @@ func runForced(dir string, order []string, jitter *rand.Rand) (observed []string
 	go func() {
 		select {
 		case <-done:
-		case <-time.After(20 * time.Second):
+		case <-time.After(4 * time.Second):
 			mu.Lock()
 			released, timedOut = true, true
 			cond.Broadcast()
